@@ -766,6 +766,8 @@ def run(ctx):
 
 
 VARIANTS = [
+    K("c20-keep-puckering-displacements-comprehension", ORDERP, "        z = np.zeros(6)\n        for i in range(6):\n            z[i] = np.dot(pos[i, :], n)\n", "        z = np.array([np.dot(pos[i, :], n) for i in range(6)], dtype=float)\n"),
+    B("c20-puckering-displacements-raw-component", ORDERP, "        z = np.zeros(6)\n        for i in range(6):\n            z[i] = np.dot(pos[i, :], n)\n", "        z = np.array([pos[i, 2] for i in range(6)], dtype=float)\n", "R-20.8"),
     B("c20-distance-absolute-position", ORDERP, "        delta = system.pos[self.index[1]] - system.pos[self.index[0]]\n        if self.periodic and system.box is not None:\n            box = np.array(system.box[:3])\n            delta = pbc_dist_coordinate(delta, box)\n        lamb = np.sqrt(np.dot(delta, delta))\n        return [lamb]", "        delta = system.pos[self.index[1]]\n        if self.periodic and system.box is not None:\n            box = np.array(system.box[:3])\n            delta = pbc_dist_coordinate(delta, box)\n        lamb = np.sqrt(np.dot(delta, delta))\n        return [lamb]", "R-20.8", control=True),
     B("c20-distance-returns-component", ORDERP, "        lamb = np.sqrt(np.dot(delta, delta))\n        return [lamb]", "        lamb = np.sqrt(np.dot(delta, delta))\n        return [delta[0]]", "R-20.8"),
     B("c20-dihedral-sum-of-positions", ORDERP, "        vector1 = pos[self.index[0]] - pos[self.index[1]]", "        vector1 = pos[self.index[0]] + pos[self.index[1]]", "R-20.8"),
